@@ -363,7 +363,9 @@ var kindStore = map[string]string{"deployments": "dep", "orders": "ord", "bids":
 	"audits": "attest", "auditor": "attest", "eaccts": "eacct", "epays": "epay",
 	"k_deployments": "dep", "k_orders": "ord", "k_bids": "bid", "k_leases": "lease", "k_providers": "prov", "k_attests": "attest"}
 
-func isIterKind(kind string) bool { return kind == "eaccts" || kind == "epays" || strings.HasPrefix(kind, "k_") }
+func isIterKind(kind string) bool {
+	return kind == "eaccts" || kind == "epays" || strings.HasPrefix(kind, "k_")
+}
 
 // plain projects a returned object that carries no joined record.
 func (q *Q) plainItem(o interface{}) M {
